@@ -15,6 +15,7 @@ Assumption recorded in the harness: flags are 0/1 (`make_dxdtf` multiplies by `1
 -/
 import Strengths.Proofs.Chemostat
 import Strengths.Proofs.Units
+import Strengths.Props.C01
 
 namespace Strengths.C03
 open Strengths Strengths.Gen
@@ -250,6 +251,22 @@ theorem euler_other_flags (e : EngIn) (chem' : Nat → Nat → Bool) (x : State)
   unfold eulerDxdt
   simp only [h]
   rfl
+
+/-! ## Entries that are not flagged evolve exactly as the rate law prescribes -/
+
+/-- graphs: one Euler step of a free entry is `x + dt·rate x` (the rate being computed from all amounts, flagged ones
+included) — C01's theorem restricted to `chem i s = false` -/
+theorem unflagged_follows_rate_graph (P : Spec.Phys) (nEnv : Nat) (edges : List GEdge) (chem : Nat → Nat → Bool) (x : State) (dt : Rat)
+    (i s : Nat) (hV : P.vol i ≠ 0) (hfaces : P.faces i = (graphSlots edges i).map faceOfSlot) (hc : chem i s = false) :
+    (eulerStep (engOfPhysGraph P nEnv edges chem) dt x) i s = x i s + dt * Spec.rate P x.get s i :=
+  C01.euler_step_graph P nEnv edges chem x dt i s hV hfaces hc
+
+/-- every valid grid -/
+theorem unflagged_follows_rate_grid (P : Spec.Phys) (nEnv : Nat) (g : GridShape) (h : Rat) (chem : Nat → Nat → Bool) (x : State) (dt : Rat)
+    (i s : Nat) (hv : g.valid = true) (hi : i < g.size) (hh : h ≠ 0) (hvol : ∀ j, P.vol j = h ^ 3) (hedge : ∀ j, P.edge j = h)
+    (hfaces : P.faces i = Spec.gridFaces g.w g.h g.d g.px g.py g.pz h i) (hc : chem i s = false) :
+    (eulerStep (engOfPhysGrid P nEnv g h chem) dt x) i s = x i s + dt * Spec.rate P x.get s i :=
+  C01.euler_step_grid_all P nEnv g h chem x dt i s hv hi hh hvol hedge hfaces hc
 
 /-! ## Non-vacuity -/
 
